@@ -64,7 +64,7 @@ SPEC = {
              "and lists of them (sign of zero compared); for every int/str/bool/float/bytes kind the variant 'the field "
              "has that value as its DEFAULT and was explicitly assigned None before the save' (the fresh configuration "
              "must hold None, not the default); map keys that are not XML names (blank inside, leading digit, empty, tab, "
-             "newline, ':', leading '-', '<', '&', quote, '/', leading blank, all digits, '=', two keys differing only in "
+             "newline, ':', leading '-', '<', '>' (F58), '&', quote, '/', leading blank, all digits, '=', two keys differing only in "
              "blanks) next to keys that are (non-ASCII, '.', 'xml' prefix, '_') in AnyField / untyped list / untyped dict "
              "/ typed DictField values x 5 formats: either the save fails and the destination is unchanged (XML) or the "
              "file reloads into an equal map -- never a successful save that reloads unequal; BoolField True/False next to IntField 1/0/-7/2^40; None in "
@@ -101,11 +101,6 @@ SPEC = {
                     "the matrix round-trips exactly in all five formats on the unchanged tree, nan, inf and -0.0 included",
                     "observed, not counted: YAML writes map keys sorted, so the ORDER of a map's keys changes on reload (maps are "
                     "compared as Python dicts: same keys with the same types, same values, any order)",
-                    "REPORTED, no ruling yet, kept out of the generated domain (NOT_REPRESENTABLE / "
-                    "TYPED_NOT_REPRESENTABLE in s_savefaults.py): under XML a map key containing '>' SAVES SUCCESSFULLY "
-                    "(ElementTree does not check tag names, minidom re-parses '<a>b type=\"str\">v1</a>b>' as element 'a') "
-                    "and loads back as a different map: {'a>b': 'v1'} -> {'a': 'b type=\"str\">v1'}; every other "
-                    "non-name key makes the XML save fail with the destination untouched",
                     "an empty SecureField value '' is stored as null and loads back as None: treated as equal",
                     "load_after_save is stated over a decoder assumed to invert the formatter (C04); equality of the "
                     "reloaded configuration is C02 and is only sampled here (oracle)"],
